@@ -224,7 +224,10 @@ def oracle(ctx, search):
                 for (n, i, j) in F.all_targets(*F.classic_dims(F.read_lines(os.path.join(par, fn)))) for t in F.VALID[n]] + \
                [p for p in plan if not p[2] or len(p[1]) > 1]
     projects, lines, pairs = {}, [], []
+    full = set(_files(ctx)[:6])
     for k, (fn, entries, valid) in enumerate(plan):
+        if ctx.thorough and not search and fn not in full and valid and len(entries) == 1 and k % 4:
+            continue                    # thorough: whole runs for every 4th single override of the remaining files
         if fn not in projects:
             vs = []
             for (name, P, kind, pne) in _project_variants(env, rnd, par, fn, "ov%d" % len(projects)):
